@@ -626,3 +626,99 @@ func TestC16Large(t *testing.T) {
 		}
 	}
 }
+
+// ---- the other ways into and out of the compiled loader --------------------------------------------------------
+
+type C16WaysCase struct {
+	Which int `json:"which"`
+}
+
+// checkC16Ways: (0) a template registered as an object keeps its registered name when compiled;
+// (1) LoadAll reads the files CompileAll wrote: the engine has the templates afterwards, also when
+// the directory is gone; (2) LoadCompiled reads the loader's file for the name.
+func checkC16Ways(c C16WaysCase) error {
+	dir, err := os.MkdirTemp(workDir(), "c16w-")
+	if err != nil {
+		return fmt.Errorf("harness: %v", err)
+	}
+	defer os.RemoveAll(dir)
+	srcs := map[string]string{"page": "Hi {{ x }}{% if x %}!{% endif %}", "list": "{% for i in [1, 2] %}{{ i }}{% endfor %}-{{ x|upper }}"}
+	ctx := map[string]interface{}{"x": "World"}
+	switch c.Which % 3 {
+	case 0:
+		e1 := twig.New()
+		t, err := e1.ParseTemplate(srcs["page"])
+		if err != nil {
+			return fmt.Errorf("harness: %v", err)
+		}
+		e1.RegisterTemplate("page", t)
+		comp, err := e1.CompileTemplate("page")
+		if err != nil {
+			return fmt.Errorf("CompileTemplate of a template registered with RegisterTemplate failed: %v", err)
+		}
+		data, err := twig.SerializeCompiledTemplate(comp)
+		if err != nil {
+			return fmt.Errorf("harness: %v", err)
+		}
+		e2 := twig.New()
+		if err := e2.LoadFromCompiledData(data); err != nil {
+			return fmt.Errorf("LoadFromCompiledData failed: %v", err)
+		}
+		want, got := render(e1, "page", ctx), render(e2, "page", ctx)
+		if want.Failed() || got.Failed() || got.Out != want.Out {
+			return fmt.Errorf("a template registered as \"page\" with RegisterTemplate, compiled (compiled name %q) and loaded into a fresh engine: Render(\"page\") gives %v there, %v on the first engine", comp.Name, got, want)
+		}
+	case 1:
+		e1 := newEngine(srcs)
+		for n := range srcs {
+			if r := render(e1, n, ctx); r.Failed() {
+				return fmt.Errorf("harness: %v", r)
+			}
+		}
+		if err := twig.NewCompiledLoader(dir).CompileAll(e1); err != nil {
+			return fmt.Errorf("CompileAll failed: %v", err)
+		}
+		e2 := twig.New()
+		if err := twig.NewCompiledLoader(dir).LoadAll(e2); err != nil {
+			return fmt.Errorf("LoadAll failed: %v", err)
+		}
+		os.RemoveAll(dir)
+		for n := range srcs {
+			want, got := render(e1, n, ctx), render(e2, n, ctx)
+			if got.Failed() || got.Out != want.Out {
+				return fmt.Errorf("CompileAll wrote %q, LoadAll read the directory into a fresh engine (the directory is gone now): Render gives %v, the first engine %v; cached names after LoadAll: %v", n, got, want, e2.GetCachedTemplateNames())
+			}
+		}
+	default:
+		e1 := newEngine(srcs)
+		cl := twig.NewCompiledLoader(dir)
+		if err := cl.SaveCompiled(e1, "page"); err != nil {
+			return fmt.Errorf("SaveCompiled failed: %v", err)
+		}
+		for i, e2 := range []*twig.Engine{twig.New(), newEngine(map[string]string{"page": "some other source"})} {
+			if err := twig.NewCompiledLoader(dir).LoadCompiled(e2, "page"); err != nil {
+				return fmt.Errorf("LoadCompiled(\"page\") on %s failed although the loader has the file: %v", []string{"a fresh engine", "an engine whose own loader has another \"page\""}[i], err)
+			}
+			want, got := render(e1, "page", ctx), render(e2, "page", ctx)
+			if got.Failed() || got.Out != want.Out {
+				return fmt.Errorf("LoadCompiled(\"page\") on %s: Render gives %v, the compiled source renders %v", []string{"a fresh engine", "an engine whose own loader has another \"page\""}[i], got, want)
+			}
+		}
+	}
+	return nil
+}
+
+func TestC16Ways(t *testing.T) {
+	r := NewRec(t, "C16", "exhaustive: 3 further routes: a template registered as an object, compiled by name and loaded elsewhere; CompileAll then LoadAll into a fresh engine with the directory removed afterwards; SaveCompiled then LoadCompiled on a fresh engine and on one whose own loader has the name; oracle: the same rendering as the first engine; all cases non-trivial")
+	defer r.Flush()
+	r.SetExhaustive()
+	for i := 0; i < 3; i++ {
+		c := C16WaysCase{Which: i}
+		r.Case(fmt.Sprint(i), true, i)
+		if err := checkC16Ways(c); err != nil {
+			r.FailEnum(t, "C16.ways", c, err)
+		}
+	}
+}
+
+func init() { reg("C16.ways", checkC16Ways) }
